@@ -34,6 +34,7 @@ def dispatch (j : Json) : Json :=
   | "own_check" => opOwnCheck j
   | "rng_keys" => opRngKeys j
   | "sched_check" => opSchedCheck j
+  | "prepare_dask_input" => opPrepare j
   | "iv" => opIV j
   | "tree_reduce" => opTreeReduce j
   | "kmeans_dist" => opKMeansDist j
